@@ -62,9 +62,8 @@ __CPROVER_ensures(IMPLIES(__CPROVER_return_value == KSI_OK, *updated == (__CPROV
 		HA_CFG_VAL(has->consolidatedConfig, calendarLastTime) != HA_CFG_OLDVAL(has->consolidatedConfig, calendarLastTime) ||
 		HA_OLD_ALGO_OK(config->aggrAlgo))))
 __CPROVER_assigns(*updated, has->consolidatedConfig)
-__CPROVER_assigns(config->maxLevel, config->aggrAlgo, config->aggrPeriod, config->maxRequests, config->calendarFirstTime, config->calendarLastTime, config->parentUri)
-__CPROVER_assigns(has->consolidatedConfig != NULL: has->consolidatedConfig->maxLevel, has->consolidatedConfig->aggrAlgo, has->consolidatedConfig->aggrPeriod,
-		has->consolidatedConfig->maxRequests, has->consolidatedConfig->calendarFirstTime, has->consolidatedConfig->calendarLastTime, has->consolidatedConfig->parentUri)
+__CPROVER_assigns(__CPROVER_object_whole(config))
+__CPROVER_assigns(has->consolidatedConfig != NULL: __CPROVER_object_whole(has->consolidatedConfig))
 __CPROVER_assigns(has->consolidatedConfig != NULL && has->consolidatedConfig->maxLevel != NULL: has->consolidatedConfig->maxLevel->ref)
 __CPROVER_assigns(has->consolidatedConfig != NULL && has->consolidatedConfig->aggrAlgo != NULL: has->consolidatedConfig->aggrAlgo->ref)
 __CPROVER_assigns(has->consolidatedConfig != NULL && has->consolidatedConfig->aggrPeriod != NULL: has->consolidatedConfig->aggrPeriod->ref)
